@@ -27,7 +27,8 @@ REGISTRY = dict(
           "at that very step and no train() follows; with equal rollouts learn() ends at the first rollout boundary at or after the target and on-policy trains once per rollout; reset_num_timesteps semantics "
           "from the regenerated _setup_learn statements; minibatches per pass = ceil(N/b) and PPO's truncated-minibatch warning law; DQN exploration schedule range/monotonicity; off-policy: no train() at or before learning_starts, gradient steps = configured value or (for -1) the timesteps of that rollout, never 0. "
           "Tie: guards, increments, gate and selection expressions are regenerated from /repo on every run + counting correspondence on the six algorithms."),
-    note=("Trusted: Coq 8.16.1 kernel (vm_compute, no native_compute), translate/py2coq.py + specs/learnloop.py, harness/c12.py, Python/numpy/torch. "
+    note=("No open finding; F4 (progress_remaining negative when the last rollout overshoots the total) is repaired in /repo (fixed: 78bdd54) and guarded by corpus inputs. "
+          "Trusted: Coq 8.16.1 kernel (vm_compute, no native_compute), translate/py2coq.py + specs/learnloop.py, harness/c12.py, Python/numpy/torch. "
           "CORRESPONDENCE-ONLY (no theorem; partial): each update uses the schedule value as learning rate (lr read on every optimizer and parameter group at every update, two user schedules, one non-linear), the value of approx_kl_div that triggers the early stop of PPO (loops, test and break are modelled and regenerated, its argument is an oracle), rollout lengths under an episodic train_freq. Not verified: float evaluation of 1 - num/total (compared with the rational model at 1e-12), the optimizer and autograd, PPO's early stop by target_kl (only the upper bound on updates is checked then), "
           "the rollout length under an episodic train_freq (computed by the harness from the scripted episode length, n_envs = 1). 'each update uses the schedule's value' is tied by correspondence only "
           "(lr recorded at every optimizer.step). All C12 theorems are closed under the global context (no axioms)."),
